@@ -380,6 +380,7 @@ class TraceLoader(SourceFileLoader):
         )
         pickle_path = None
         table_is_fresh = False
+        fresh_bookkeeping = None
         if enforce_pickled_bookkeeping:
             cache_path = self._pyccolo_cache_from_source(source_path)
             pickle_path = os.path.splitext(cache_path)[0] + ".pkl"
@@ -396,6 +397,12 @@ class TraceLoader(SourceFileLoader):
                 # True: compiled now, and the bytecode cache entry (re)written if that is possible at all
                 table_is_fresh = self._rewrote_source
                 table = None if table_is_fresh else self._load_node_table(pickle_path)
+                if table_is_fresh:
+                    # the bookkeeper this compilation produced: what the module body does later (a function
+                    # decorated with `instrumented` registers its own for the path) must not replace it
+                    fresh_bookkeeping = tracer.ast_bookkeeper_by_fname.get(source_path)
+                    # ids of code compiled in this process need no translation
+                    tracer.node_id_remapping_by_fname.pop(source_path, None)
                 if not table_is_fresh and table is None:
                     # cached bytecode without its (readable) node table: do not use it
                     code = self.source_to_code(self.get_data(source_path), source_path)
@@ -412,6 +419,9 @@ class TraceLoader(SourceFileLoader):
                         )
                     new_bookkeeping, remapping = table.remap(id(module))
                     tracer.add_bookkeeping(new_bookkeeping, id(module))
+                    # recorded like a bookkeeper made by the rewriter, so that the next instrumentation or
+                    # cached load of the path finds (and removes) it
+                    tracer.ast_bookkeeper_by_fname[source_path] = new_bookkeeping
                     tracer.node_id_remapping_by_fname[source_path] = remapping
                 if code is not None:
                     self._code_for_exec = (module.__name__, code)
@@ -420,13 +430,14 @@ class TraceLoader(SourceFileLoader):
                 pickle_path is not None
                 and tracer is not None
                 and table_is_fresh
+                and fresh_bookkeeping is not None
                 and not sys.dont_write_bytecode
             ):
                 # like the bytecode, the node table is only a cache: where it cannot be written, go without
                 tmp_path = f"{pickle_path}.{os.getpid()}.tmp"
                 try:
                     with open(tmp_path, "wb") as f:
-                        pickle.dump(tracer.ast_bookkeeper_by_fname[source_path], f)
+                        pickle.dump(fresh_bookkeeping, f)
                     os.replace(tmp_path, pickle_path)
                 except OSError:
                     # a partial file is worse than none
